@@ -504,6 +504,9 @@ impl TropicalSubgraphTable {
     }
 }
 
+#[cfg(feature = "verif-hooks")]
+pub mod verif;
+
 // some tests
 #[cfg(test)]
 mod tests {
